@@ -36,7 +36,7 @@ fn strategy() -> impl Strategy<Value = Case> {
         prop_oneof![Just(1usize), Just(2usize), Just(3usize), Just(4usize), Just(8usize)],
         1usize..=24,
         any::<u64>(),
-        1usize..=90,
+        prop_oneof![6 => 1usize..=90, 1 => 120usize..=135, 1 => 250usize..=700],
         any::<u64>(),
         any::<u64>(),
         0u64..5,
@@ -55,7 +55,8 @@ fn strategy() -> impl Strategy<Value = Case> {
                     }
                 }
             }
-            let zmax = kt.min(12);
+            // one case in eight: up to the 8-bit maximum of 255 blocks
+            let zmax = if (rz >> 40) % 8 == 0 { kt.min(255) } else { kt.min(12) };
             let mut z = 1 + (rz % zmax as u64) as usize;
             if bias & 2 == 2 && zmax > 2 {
                 for cand in (2..=zmax).map(|d| 2 + ((d - 2) + (rz % zmax as u64) as usize) % (zmax - 1)) {
@@ -85,6 +86,7 @@ fn check(c: &Case, st: &mut Stats) -> Result<(), String> {
     st.class_if(c_pad, "F mod T != 0");
     st.class_if(c.n > 1, "N>1");
     st.class_if(c.z > 1, "Z>1");
+    st.class_if(c.z > 128, "Z>128");
     if c_sub || c_blk || c_pad {
         st.nt(fnv_u64s(&[f as u64, t as u64, c.z as u64, c.n as u64, c.al as u64]));
     }
@@ -157,6 +159,14 @@ fn check(c: &Case, st: &mut Stats) -> Result<(), String> {
     }
     if out.as_deref() != Some(&data[..]) {
         return Err(format!("F={f} T={t} Z={} N={} Al={}: decoding all source packets does not return the object", c.z, c.n, c.al));
+    }
+    // (a') the same through the streaming interface, source packets in reverse order
+    let mut decs = Decoder::new(cfg);
+    for p in pkts.iter().rev() {
+        decs.add_new_packet(p.clone());
+    }
+    if decs.get_result().as_deref() != Some(&data[..]) {
+        return Err(format!("F={f} T={t} Z={} N={} Al={}: add_new_packet of all source packets + get_result does not return the object", c.z, c.n, c.al));
     }
     // (b) an erasure pattern repaired by repair packets
     let mut rng = SplitMix::new(c.seed ^ 0x77);
@@ -231,6 +241,8 @@ fn from_json(v: &Value) -> Case {
 fn signature(_: &Case, msg: &str) -> String {
     let kind = if msg.contains("panic") {
         "panic"
+    } else if msg.contains("get_result") {
+        "decoder"
     } else if msg.contains("partition(") {
         "partition"
     } else if msg.contains("calculate_block_offsets") {
@@ -246,7 +258,7 @@ fn signature(_: &Case, msg: &str) -> String {
 }
 
 pub fn run(ctx: &Ctx, rep: &mut Report) {
-    rep.rule = "generated (F, T, Z, N, Al, data): Al in {1,2,3,4,8}, T/Al in 1..=24, N in 1..=T/Al, Kt in 1..=90, Z in 1..=min(Kt,12), F=(Kt-1)*T+r, biased to Kt mod Z != 0 and (T/Al) mod N != 0; data position-coded or random. Plus an exhaustive sweep of all (Kt <= 8 quick / 20 thorough, Z <= Kt, T/Al <= 5 quick / 8 thorough, N <= T/Al, Al in {1,4}). Oracle: reference layout by index formula (Partition, block/sub-block/symbol offsets) for every source packet's (SBN, ESI, payload); partition() and calculate_block_offsets() against the reference; then the decoder is fed all source packets, an erasure pattern + repair packets, one block decoder with all source packets, and one block decoder with a single batch (erasures + H+3 extra repair symbols, which enters the binary-only fast path), and must return the object / block. Non-trivial = N>1 with TL != TS, or Z>1 with KL != KS, or F mod T != 0; distinct by (F,T,Z,N,Al).".into();
+    rep.rule = "generated (F, T, Z, N, Al, data): Al in {1,2,3,4,8}, T/Al in 1..=24, N in 1..=T/Al, Kt in 1..=90 (weighted; also 120..135 and 250..700), Z in 1..=min(Kt,12) and in one case of eight 1..=min(Kt,255), F=(Kt-1)*T+r, biased to Kt mod Z != 0 and (T/Al) mod N != 0; data position-coded or random. Plus an exhaustive sweep of all (Kt <= 8 quick / 20 thorough, Z <= Kt, T/Al <= 5 quick / 8 thorough, N <= T/Al, Al in {1,4}). Oracle: reference layout by index formula (Partition, block/sub-block/symbol offsets) for every source packet's (SBN, ESI, payload); partition() and calculate_block_offsets() against the reference; then the decoder is fed all source packets, an erasure pattern + repair packets, one block decoder with all source packets, and one block decoder with a single batch (erasures + H+3 extra repair symbols, which enters the binary-only fast path), and must return the object / block. Non-trivial = N>1 with TL != TS, or Z>1 with KL != KS, or F mod T != 0; distinct by (F,T,Z,N,Al).".into();
     let n = ctx.tier.pick(200_000u64, 2_000_000);
     rep.absorb("generated", run_sharded("C05", "generated", ctx.seed, n, 32, strategy, check, to_json, signature));
     // exhaustive small sweep
